@@ -131,6 +131,11 @@ def transform_class(m, eps=1e-12):
 UNIT_EPS = [0.0]  # relative perturbation of the physical units (sensitivity analysis only, see evaluate())
 
 
+def _eps(unit):
+    e = UNIT_EPS[0]
+    return e.get(unit, 0.0) if isinstance(e, dict) else e
+
+
 def length(text, ref, ppi):
     """Resolve a length / percentage attribute value into user units. ref: what 100% means."""
     mt = _RE_LEN.match(str(text))
@@ -143,11 +148,11 @@ def length(text, ref, ppi):
     if u == "%":
         return v * ref / 100.0
     if u == "in":
-        return v * ppi * (1.0 + UNIT_EPS[0])
+        return v * ppi * (1.0 + _eps("in"))
     if u == "cm":
-        return v * ppi / 2.54 * (1.0 + UNIT_EPS[0])
+        return v * ppi / 2.54 * (1.0 + _eps("cm"))
     if u == "mm":
-        return v * ppi / 25.4 * (1.0 + UNIT_EPS[0])
+        return v * ppi / 25.4 * (1.0 + _eps("mm"))
     if u == "pt":
         return v * 4.0 / 3.0
     if u == "pc":
@@ -710,7 +715,8 @@ class Evaluator(object):
 
 def evaluate(text, ppi=96.0, width=None, height=None, transform=None, unit_eps=0.0):
     """-> list of RShape, in document (rendering) order.
-    unit_eps != 0 evaluates the same document with every physical unit (in, cm, mm) scaled by (1 + unit_eps):
+    unit_eps != 0 evaluates the same document with every physical unit (in, cm, mm) scaled by (1 + unit_eps)
+    (a dict {unit: eps} perturbs the named units only - the units' constants err independently of one another):
     the difference to the exact evaluation says how far a relative error of unit_eps in the unit conversion
     moves each point (it can exceed unit_eps times the final coordinate when large terms cancel)."""
     UNIT_EPS[0] = unit_eps
